@@ -171,43 +171,47 @@ def mode_oracle(name, cur, new):
     raise ValueError(name)
 
 
-def body_editmodes(env, shape=(3,), steps=2):
-    """edit-mode sequences applied to a real DataCollection / SubsetGroup"""
+def body_editmodes(env, shape=(3,), steps=2, start=None):
+    """edit-mode sequences applied to a real DataCollection / SubsetGroup, starting either with no edit
+    subset at all or with a freshly created (empty) subset group"""
     from glue.core import DataCollection
     from glue.core import edit_subset_mode as esm
-    from glue.core import subset as ss
     d, x, y = build_data(env, shape)
     dc = DataCollection([d])
     mode = esm.EditSubsetMode()
     mode.data_collection = dc
     kinds = ['ineq', 'range', 'mask']
+    start = env.choice('start', 2) if start is None else start
     cur = None
-    groups = []
-    for s in range(steps + 1):
-        st, df = leaf(env, kinds[s % 3], d, x, y, 's%d' % s)
-        if s == 0:
-            mname = 'ReplaceMode'
-        else:
-            mname = MODES[env.choice('mode%d' % s, len(MODES))]
+    if start == 1:
+        g0 = dc.new_subset_group()
+        mode.edit_subset = [g0]
+        cur = np.zeros(shape, dtype=bool)
+    others = []
+    for s in range(steps):
+        st, df = leaf(env, kinds[s % 3], d, x, y, 's%d' % s, ineqop=s % 6)
+        mname = MODES[env.choice('mode%d' % s, len(MODES))]
         mode.mode = getattr(esm, mname)
         before = list(dc.subset_groups)
+        prev_edit = mode.edit_subset[0] if mode.edit_subset else None
         mode.update(dc, st)
         if mname == 'NewMode' or cur is None:
             env.true(len(dc.subset_groups) == len(before) + 1, 'new group created')
+            if prev_edit is not None:
+                others.append((prev_edit, cur))
             cur = df
         else:
             env.true(len(dc.subset_groups) == len(before), 'no group created')
             cur = mode_oracle(mname, cur, df)
         g = mode.edit_subset[0] if isinstance(mode.edit_subset, list) else mode.edit_subset
-        sub = [sset for sset in d.subsets if sset.group is g][0]
-        env.same(sub.to_mask(), cur, 'after step %d (%s)' % (s, mname))
+        sub = [sset for sset in d.subsets if sset.group is g]
+        env.true(len(sub) == 1, 'edited group has one subset on the dataset')
+        env.same(sub[0].to_mask(), cur, 'after step %d (%s)' % (s, mname))
         env.same(d.get_mask(st), df, 'applied state unaltered at step %d' % s)
-        groups.append((g, cur))
-    # earlier groups (left behind by NewMode) keep their selection
-    for g, m in groups:
-        if g is not (mode.edit_subset[0] if isinstance(mode.edit_subset, list) else mode.edit_subset):
-            continue
-    env.same(d.subsets[-1].to_mask(), cur, 'final')
+        # groups left behind by NewMode keep their selection
+        for og, om in others:
+            osub = [sset for sset in d.subsets if sset.group is og][0]
+            env.same(osub.to_mask(), om, 'untouched group keeps its selection at step %d' % s)
 
 
 def harnesses(tier):
@@ -218,8 +222,9 @@ def harnesses(tier):
                               bounds=dict(shape=(2, 2), leaves=3, depth=2, leaf_kinds=['ineq', 'range', 'mask'])))
         hs.append(Harness('leafkinds(2,2)', body_leafkinds, params=dict(shape=(2, 2)), validate=30,
                           bounds=dict(shape=(2, 2), kinds=8, forms=5, inequality_operators=6)))
-        hs.append(Harness('editmodes(3,)x2', body_editmodes, params=dict(shape=(3,), steps=2), validate=30,
-                          bounds=dict(shape=(3,), steps=2, modes=6)))
+        for st in (0, 1):
+            hs.append(Harness('editmodes(3,)x3 start=%d' % st, body_editmodes, params=dict(shape=(3,), steps=3, start=st),
+                              validate=30, bounds=dict(shape=(3,), steps=3, modes=6, start=['no edit subset', 'fresh empty group'][st])))
     else:
         for shape in [(4,), (2, 3), (2, 2, 2)]:
             for pre in (0, 1):
@@ -231,8 +236,9 @@ def harnesses(tier):
                               bounds=dict(shape=shape, leaves=3, depth=2, leaf_kinds=['rect', 'multirange', 'derived'])))
             hs.append(Harness('leafkinds%s' % (shape,), body_leafkinds, params=dict(shape=shape), validate=50,
                               bounds=dict(shape=shape, kinds=7, forms=5)))
-        hs.append(Harness('editmodes(3,)x3', body_editmodes, params=dict(shape=(3,), steps=3), validate=50,
-                          bounds=dict(shape=(3,), steps=3, modes=6)))
-        hs.append(Harness('editmodes(2,2)x2', body_editmodes, params=dict(shape=(2, 2), steps=2), validate=50,
-                          bounds=dict(shape=(2, 2), steps=2, modes=6)))
+        for st in (0, 1):
+            hs.append(Harness('editmodes(3,)x4 start=%d' % st, body_editmodes, params=dict(shape=(3,), steps=4, start=st),
+                              validate=50, bounds=dict(shape=(3,), steps=4, modes=6)))
+            hs.append(Harness('editmodes(2,2)x3 start=%d' % st, body_editmodes, params=dict(shape=(2, 2), steps=3, start=st),
+                              validate=50, bounds=dict(shape=(2, 2), steps=3, modes=6)))
     return hs
